@@ -126,7 +126,8 @@ def summary(a):
 def norm_path(text: str) -> str:
     t = re.sub(r"\s+", "", text)
     t = re.sub(r"\[\"([A-Za-z_][A-Za-z0-9_-]*)\"\]|\['([A-Za-z_][A-Za-z0-9_-]*)'\]", lambda m: "." + (m.group(1) or m.group(2)), t)
-    # (a root written ['x'] is the variable x)
+    # (a root written ['x'] is the variable x; a shorthand index .0 is the index [0])
+    t = re.sub(r"\.(-?[0-9]+)(?![A-Za-z0-9_-])", r"[\1]", t)
     return t.replace('"', "'").lstrip(".")
 
 
@@ -280,7 +281,7 @@ def judge(rec, opts):
 FOCUSES = [("MC_Scopes", "scopes", {}, 2, 3), ("MC_Flow", "flow", {}, 1, 2), ("MC_Lambda", "lambda", {}, 4, 4),
            ("MC_Sites", "sites", {}, 2, 3), ("MC_Exprs", "exprs", {}, 1, 2), ("MC_Loops", "loops-single", {"Variant": '"single"'}, 1, 1),
            ("MC_Undef", "undef-single", {"Variant": '"single"'}, 1, 1), ("MC_Attr", "attr-all", {"Variant": '"all"'}, 1, 1),
-           ("MC_Static", "static", {}, 3, 3)]
+           ("MC_Static", "static", {}, 3, 3), ("MC_Short", "short", {}, 2, 2)]
 
 
 def judge_globals(rec, opts):
